@@ -4,7 +4,7 @@ CONSTANTS
  LocalNames = {"x", "y"}
  FreeNames = {"a"}
  Top = {"b"}
- MaxParams = 1
+ MaxParams = 0
  MaxDecl = 1
  Start <- StartAB
  Cont <- ContABC
